@@ -12,6 +12,7 @@ Necessary conditions, not the whole behaviour (no clock-drift or scheduling argu
 from .helpers_r1 import *
 
 EXPLANATION = __doc__
+TECHNIQUE = "static analysis of rustc MIR facts: dominance/guard and value-provenance rules plus exact symbolic decision tables of loop-free guard functions (exhaustive over weak orderings)"
 
 CLOCK = r"(read_lease::now_ms|Instant::now|Instant::elapsed|SystemTime::now)$"
 
